@@ -4,6 +4,7 @@
 mod ctl;
 mod det;
 mod dxrun;
+mod par;
 mod props;
 mod refmodel;
 mod report;
@@ -23,6 +24,11 @@ fn main() {
         usage();
     }
     let id = args[1].clone();
+    if id == "__padchild" {
+        det::install_panic_hook(false);
+        let code = props::pad::pad_child(&args[2], args[3].parse().unwrap_or(0));
+        std::process::exit(code);
+    }
     let mut tier = match std::env::var("VERIF_TIER").ok().as_deref() {
         Some("thorough") => Tier::Thorough,
         _ => Tier::Quick,
@@ -51,6 +57,8 @@ fn main() {
     if let Some(file) = replay {
         let code = match id.as_str() {
             "C01" => props::c01::replay(&file),
+            "C02" => props::c02::replay(&file),
+            "C05" => props::pad::replay_c05(&file),
             "C09" => props::c09::replay(&file),
             "C11" => props::c11::replay(&file),
             _ => {
@@ -62,6 +70,10 @@ fn main() {
     }
     let code = match id.as_str() {
         "C01" => props::c01::run(tier),
+        "C02" => props::c02::run(tier),
+        "C03" => props::c03::run(tier),
+        "C04" => props::pad::run_c04(tier),
+        "C05" => props::pad::run_c05(tier),
         "C09" => props::c09::run(tier),
         "C11" => props::c11::run(tier),
         _ => {
